@@ -418,7 +418,7 @@ class HeaderSearchCriteria(SearchCriteria):
 
     def __init__(self, name: str, value: str, params: SearchParams) -> None:
         super().__init__(params)
-        self.name = name.encode('ascii')
+        self.name = name.encode('utf-8', 'replace')
         self.value = value
 
     def matches(self, msg_seq: int, msg: MessageInterface,
